@@ -3,7 +3,7 @@ import random
 from ..framework import Check
 from .. import mgr_check, mgr_common as C
 
-THEOREMS = ['C14_unwritable_reported', 'C14_logger_waited_for', 'C14_write_failure_reported', 'C14_notice_content', 'C14_no_cascade', 'C14_guarded_types', 'C14_others_still_served', 'C14_ex', 'C14_notice_delivered', 'C14_failing_send', 'C14_remaining_spec', 'C14_failing_send_ex_hypotheses', 'C14_failing_send_ex_outcome', 'C14_mixed_delivery', 'C14_kinds', 'C14_mixed_delivery_ex_hypotheses', 'C14_mixed_delivery_ex_outcome']
+THEOREMS = ['C14_unwritable_reported', 'C14_logger_waited_for', 'C14_write_failure_reported', 'C14_notice_content', 'C14_no_cascade', 'C14_guarded_types', 'C14_others_still_served', 'C14_ex', 'C14_notice_delivered', 'C14_failing_send', 'C14_remaining_spec', 'C14_failing_send_ex_hypotheses', 'C14_failing_send_ex_outcome', 'C14_mixed_delivery', 'C14_kinds', 'C14_mixed_delivery_ex_hypotheses', 'C14_mixed_delivery_ex_outcome', 'C14_notice_reaches_blocked', 'C14_notice_reaches_failing', 'C14_forward_notice_blocked', 'C14_no_notice_about_notices', 'C14_notices_only_about_reportable', 'C14_notice_once_meaning', 'C14_notice_served_ex']
 CHECKERS = ['C14', 'C03']
 
 
